@@ -36,6 +36,7 @@ type FuncSpec struct {
 	Loops     map[int]*LoopSpec
 	Assigns   []*Clause // nil => not declared
 	HasAssign bool
+	Preserves []*Clause // locations the function never modifies (negative frame; used when no assigns is declared)
 	Trusted   bool
 	MayPanic  bool
 	NoInline  bool
@@ -109,7 +110,7 @@ func NewSpecFile() *SpecFile {
 }
 
 var clauseKeywords = map[string]bool{"requires": true, "ensures": true, "invariant": true, "decreases": true,
-	"assigns": true, "loop": true, "may_panic": true, "trusted": true, "pure": true, "abstract": true, "axiom": true,
+	"assigns": true, "preserves": true, "loop": true, "may_panic": true, "trusted": true, "pure": true, "abstract": true, "axiom": true,
 	"func": true, "lemma": true, "noinline": true, "opaque": true, "flag": true, "let": true, "may_panic_at": true, "extends": true, "foreach_field": true, "ghost": true, "assert": true}
 
 // ParseSpecFile reads //@ lines from path and adds them to sf.
@@ -286,6 +287,15 @@ func (sf *SpecFile) ParseSpecFile(path string) error {
 					cur.Assigns = append(cur.Assigns, cs...)
 					cur.HasAssign = true
 				}
+			case "preserves":
+				for _, part := range splitTop(strings.TrimSpace(r.text), ',') {
+					e, err := ParseSpecExpr(part)
+					if err != nil {
+						return fmt.Errorf("%s: %v in %q", loc, err, part)
+					}
+					cur.Preserves = append(cur.Preserves, &Clause{Kind: "preserves", Text: part, Expr: e, Line: r.line, File: path})
+				}
+				curLoop = nil
 			case "may_panic":
 				cur.MayPanic = true
 			case "foreach_field":
